@@ -267,3 +267,37 @@ mutant("c03-literals-extent-guard", "C03", "C03.", BLKD, "        if raw.len() <
 mutant("c03-dict-guard", "C03", "C03.", DICT, "        if raw_tables.len() < huf_size as usize {", "        if raw_tables.len() + 4 < huf_size as usize {")
 benign("c03-reorder-guards", "C03", FSED, "        if self.accuracy_log > max_log {", "        if max_log < self.accuracy_log {")
 benign("c03-comment-shift", "C03", SSD, "fn maybe_update_fse_tables(", "// a\n// b\n// c\nfn maybe_update_fse_tables(")
+
+# ---- C02 -------------------------------------------------------------------------------
+FAST = "ruzstd/src/encoding/levels/fastest.rs"
+MGEN = "ruzstd/src/encoding/match_generator.rs"
+mutant("c02-f5-revert", "C02", "C02.pair.huffman-commit", FAST, "            state.last_huff_table = None;\n", "")
+mutant("c02-no-huff-reset-per-frame", "C02", "C02.cover.frame-reset", FCOMP, "        self.state.last_huff_table = None;\n        #[cfg(feature = \"hash\")]", "        #[cfg(feature = \"hash\")]")
+mutant("c02-matcher-reset-after-read", "C02", "C02.cover.frame-reset", FCOMP,
+       "        self.state.matcher.reset(self.compression_level);\n        self.state.last_huff_table = None;",
+       "        self.state.last_huff_table = None;",
+       more=[{"file": FCOMP, "find": "            uncompressed_data.resize(read_bytes, 0);", "replace": "            uncompressed_data.resize(read_bytes, 0);\n            if read_bytes == usize::MAX { self.state.matcher.reset(self.compression_level); }", "count": 1}])
+mutant("c02-mgen-reset-forgets-suffix-idx", "C02", "C02.cover.frame-reset", MGEN, "        self.concat_window.clear();\n        self.suffix_idx = 0;\n        self.last_idx_in_sequence = 0;\n        self.window.drain", "        self.concat_window.clear();\n        self.last_idx_in_sequence = 0;\n        self.window.drain")
+mutant("c02-recycled-store-not-cleared", "C02", "C02.cover.frame-reset", MGEN,
+       "            vec_pool.push(data);\n            suffixes.slots.clear();\n            suffixes.slots.resize(suffixes.slots.capacity(), None);\n            suffix_pool.push(suffixes);\n        });\n    }\n\n    fn window_size",
+       "            vec_pool.push(data);\n            suffix_pool.push(suffixes);\n        });\n    }\n\n    fn window_size")
+mutant("c02-extra-bits-order", "C02", "C02.order.mirror", COMP,
+       "            writer.write_bits(ll_add_bits, ll_num_bits);\n            writer.write_bits(ml_add_bits, ml_num_bits);\n            writer.write_bits(of_add_bits, of_num_bits);\n        }\n    }",
+       "            writer.write_bits(ml_add_bits, ml_num_bits);\n            writer.write_bits(ll_add_bits, ll_num_bits);\n            writer.write_bits(of_add_bits, of_num_bits);\n        }\n    }")
+mutant("c02-final-state-order", "C02", "C02.order.mirror", COMP,
+       "    writer.write_bits(ml_state.index as u64, ml_table.table_size.ilog2() as usize);\n    writer.write_bits(of_state.index as u64, of_table.table_size.ilog2() as usize);",
+       "    writer.write_bits(of_state.index as u64, of_table.table_size.ilog2() as usize);\n    writer.write_bits(ml_state.index as u64, ml_table.table_size.ilog2() as usize);")
+mutant("c02-table-description-order", "C02", "C02.order.mirror", COMP, "        encode_table(&of_mode, &mut writer);\n        encode_table(&ml_mode, &mut writer);", "        encode_table(&ml_mode, &mut writer);\n        encode_table(&of_mode, &mut writer);")
+mutant("c02-wrong-code-for-transition", "C02", "C02.order.mirror", COMP, "                let next = ml_table.next_state(ml_code, ml_state.index);", "                let next = ml_table.next_state(ll_code, ml_state.index);")
+mutant("c02-last-block-flag-dropped", "C02", "C02.pair.block-loop", FAST, "                last_block,\n                block_type: crate::blocks::block::BlockType::Raw,", "                last_block: false,\n                block_type: crate::blocks::block::BlockType::Raw,")
+mutant("c02-repeat-mode-enabled", "C02", "C02.cover.frame-reset", COMP, "    let use_previous_table = false;", "    let use_previous_table = previous.is_some();")
+benign("c02-rename-states", "C02", COMP, "ml_state", "match_state", count=5)
+
+# ---- C16 -------------------------------------------------------------------------------
+FSEE = "ruzstd/src/fse/fse_encoder.rs"
+mutant("c16-f4-revert", "C16", "C16.dom.single-symbol", FSEE, "    let max_symbol = max_symbol.max(1);\n", "")
+mutant("c16-f5-revert", "C16", "C16.pair.huffman-commit", FAST, "            state.last_huff_table = None;\n", "")
+mutant("c16-f3-revert", "C16", "C16.table.seq-count", COMP, "128..=0x7EFF => {", "128..=0x7FFF => {", more=[{"file": COMP, "find": "0x7F00..=UPPER_LIMIT => {", "replace": "0x8000..=UPPER_LIMIT => {", "count": 1}])
+mutant("c16-new-panic-on-matcher-path", "C16", "C16.inventory.panics", COMP, "                literals_vec.extend_from_slice(literals);\n                sequences.push(", "                literals_vec.extend_from_slice(literals);\n                assert!(match_len >= 5);\n                sequences.push(")
+mutant("c16-builtin-special-case", "C16", "C16.", COMP, "                    ml: match_len as u32,", "                    ml: (match_len as u32).max(5),")
+mutant("c16-new-with-matcher-private", "C16", "C16.api", FCOMP, "    pub fn new_with_matcher(matcher: M, compression_level: CompressionLevel) -> Self {", "    pub(crate) fn new_with_matcher(matcher: M, compression_level: CompressionLevel) -> Self {")
